@@ -582,6 +582,28 @@ class Gen:
             s["keys"].append(s["conds"][-1][1][0])
         return [s]
 
+    def sc_vcs(self):
+        """spend-bundle shaped: 1-3 spends whose only conditions are AGG_SIG_* (no self references), puzzle hash =
+        tree hash of (q . conditions); sometimes the same AGG_SIG condition twice"""
+        from clvm import tree_hash
+        r = self.r
+        spends = []
+        for _ in range(1 + r.below(3)):
+            s = self.new_spend(parent=r.bytes(32), amount=self.amount())
+            s["budget"] = []
+            for _ in range(1 + r.below(3)):
+                name = r.choice(AGG)
+                pk, msg = self.key(), r.choice(self.msgs)
+                s["conds"].append(self.cond(name, [pk, msg])); s["tags"].append((name, "vcs")); s["keys"].append(pk)
+                if r.chance(1, 3):
+                    s["conds"].append(s["conds"][-1]); s["tags"].append((name, "vcs-dup"))
+            if r.chance(1, 4):
+                self.add_raw(s, "CREATE_COIN", [r.choice(self.phs), canon(s["amount"] // 2)])
+            s["ph"] = tree_hash((b"\x01", to_list(s["conds"])))
+            s["id"] = coin_id(s["parent"], s["ph"], s["amount"])
+            spends.append(s)
+        return spends
+
     def sc_malformed(self):
         r = self.r
         spends = self.sc_multi()
